@@ -10,8 +10,10 @@ From NSL Require Import Base.Types Base.Syntax Spec.Overload Model.PyNum Model.I
 Import ListNotations.
 
 Definition is_swhile (n : nat) (s : stmt) : bool := match s with SWhile c (Some b) => spure c && bsrc n b | _ => false end.
-Definition wstop (n : nat) (s : stmt) : bool := stop n s || is_swhile n s.
-Definition wtopexprs (n : nat) (ts : tstmt) : list texpr := match ts with TWhile c (Some b) => c :: bexprs n b | _ => topexprs n ts end.
+Definition is_sdo (n : nat) (s : stmt) : bool := match s with SDo b c => spure c && forallb (bsrc n) b | _ => false end.
+Definition wstop (n : nat) (s : stmt) : bool := stop n s || is_swhile n s || is_sdo n s.
+Definition wtopexprs (n : nat) (ts : tstmt) : list texpr :=
+  match ts with TWhile c (Some b) => c :: bexprs n b | TDo b c => c :: bexprs (S n) (TBlock b) | _ => topexprs n ts end.
 
 (** ** the constant table *)
 Section WTable.
@@ -54,14 +56,47 @@ Section WTable.
     - apply Hp5. exact Hy.
   Qed.
 
+  Lemma lower_d_table n b c st st' : tpure c = true -> forallb (bstmt n) b = true -> linv st -> lower_stmt structs gl args (TDo b c) st = LOk st' ->
+    table_ok L (l_consts st) -> (forall x, In x (c :: bexprs (S n) (TBlock b)) -> incl (tflits x) L) -> tres_tab L st st' (c :: bexprs (S n) (TBlock b)).
+  Proof.
+    intros Hpc Hbb I H Ht Hin. rewrite lower_do_unfold in H.
+    destruct (create_block st) as [st1 startb] eqn:Esb.
+    destruct (lower_stmt structs gl args (TBlock b) (set_depth st1 (S (l_depth st1)))) as [st2| |] eqn:Et; cbn [lbind] in H; try discriminate.
+    destruct (create_block (set_depth st2 (l_depth st1))) as [st4 condb] eqn:Ecb.
+    destruct (lower_expr structs gl args c st4) as [[cv st5]| |] eqn:Ec; cbn [lbind] in H; try discriminate.
+    destruct (emit_branch st5 (Some cv) (LRef startb) LNone) as [st6 br] eqn:Eb.
+    destruct (create_block st6) as [st7 endb] eqn:Eeb. inversion H; subst st'; clear H.
+    destruct (create_block_consts _ _ _ Esb I) as [I1 Hc1].
+    assert (Hbb' : bstmt (S n) (TBlock b) = true) by exact Hbb.
+    destruct (lower_b_table structs gl args L (S n) (TBlock b) (set_depth st1 (S (l_depth st1))) st2 Hbb' (linv_set_depth _ _ I1) Et) as (I2 & Ht2 & (n2 & Hn2) & Hp2).
+    { change (l_consts (set_depth st1 (S (l_depth st1)))) with (l_consts st1). rewrite Hc1. exact Ht. }
+    { intros y Hy. apply Hin. right. exact Hy. }
+    change (l_consts (set_depth st1 (S (l_depth st1)))) with (l_consts st1) in Hn2.
+    destruct (create_block_consts _ _ _ Ecb (linv_set_depth _ _ I2)) as [I4 Hc4]. change (l_consts (set_depth st2 (l_depth st1))) with (l_consts st2) in Hc4.
+    destruct (lower_table structs gl args L c st4 cv st5 Hpc I4 Ec) as (I5 & Ht5 & (n5 & Hn5) & Hpi & Hpf); [rewrite Hc4; exact Ht2|apply Hin; left; reflexivity|].
+    destruct (emit_branch_consts _ _ _ _ _ _ Eb I5) as [I6 Hc6]. destruct (create_block_consts _ _ _ Eeb I6) as [I7 Hc7].
+    assert (Hfin : l_consts (patch (set_targets st7 br None (Some (LRef endb))) (l_depth st1) endb condb) = l_consts st5) by (cbn; rewrite Hc7, Hc6; reflexivity).
+    split.
+    { assert (I9 : linv (set_targets st7 br None (Some (LRef endb)))) by (apply set_targets_linv; exact I7).
+      destruct I9 as [J1 J2 J3]. constructor; cbn in *; [exact J1| |exact J3].
+      destruct J2 as [X|X]; [left; exact X|right]. intro Y. apply X. destruct (l_blocks st7); [reflexivity|discriminate]. }
+    rewrite Hfin. split; [exact Ht5|]. split; [exists (n2 ++ n5); rewrite Hn5, Hc4, Hn2, Hc1, <- app_assoc; reflexivity|].
+    intros y [<-|Hy].
+    - split; assumption.
+    - rewrite Hn5, Hc4. apply present_app. apply Hp2. exact Hy.
+  Qed.
+
   Lemma lower_wtop_table n s st st' : wtop_ok n s = true -> linv st -> lower_stmt structs gl args s st = LOk st' ->
     table_ok L (l_consts st) -> (forall x, In x (wtopexprs n s) -> incl (tflits x) L) -> tres_tab L st st' (wtopexprs n s).
   Proof.
     intros Hs I H Ht Hin. unfold wtop_ok in Hs. destruct (top_ok n s) eqn:Et.
-    - assert (E : wtopexprs n s = topexprs n s) by (destruct s as [| | | | | |c [b|]| | |]; try reflexivity; unfold top_ok in Et; cbn in Et; destruct n; discriminate).
+    - assert (E : wtopexprs n s = topexprs n s) by (destruct s as [| | | | | |c [b|]|b0 c0| |]; try reflexivity; unfold top_ok in Et; cbn in Et; destruct n; discriminate).
       rewrite E in *. apply (lower_top_table structs gl args L n s st st' Et I H Ht Hin).
-    - cbn in Hs. destruct s as [| | | | | |c [b|]| | |]; try discriminate. cbn [is_while] in Hs. apply andb_prop in Hs as [Hpc Hbb].
-      apply (lower_w_table n c b st st' Hpc Hbb I H Ht Hin).
+    - cbn [orb] in Hs. destruct s as [| | | | | |c [b|]|b0 c0| |]; try discriminate.
+      + cbn [is_while is_do orb] in Hs. rewrite orb_false_r in Hs. apply andb_prop in Hs as [Hpc Hbb].
+        apply (lower_w_table n c b st st' Hpc Hbb I H Ht Hin).
+      + cbn [is_while is_do orb] in Hs. apply andb_prop in Hs as [Hpc Hbb].
+        apply (lower_d_table n b0 c0 st st' Hpc Hbb I H Ht Hin).
   Qed.
 
   Lemma lower_wtoplist_table n : forall l st st', forallb (wtop_ok n) l = true -> linv st -> lower_body structs gl args l st = LOk st' ->
@@ -146,20 +181,58 @@ Section WStatic.
             destruct f as [f0|]; [destruct (elab_stmt G e2 f0) as [q| |]; cbn [ebind] in He; try discriminate|cbn [ebind] in He]; discriminate.
   Qed.
 
+  Lemma do_elab_inv n env b c ts env' : spure c = true -> forallb (bsrc n) b = true -> env_num env ->
+    elab_stmt G env (SDo b c) = EOk (ts, env') ->
+    (forall b', elab_body G ([] :: [] :: env) b = EOk b' -> bnonan (S n) (TBlock b')) ->
+    exists b' c', ts = TDo b' c' /\ env' = env /\ elab_body G ([] :: [] :: env) b = EOk b' /\ elab G COn ([] :: env) c = EOk c' /\ forallb (bstmt n) b' = true.
+  Proof.
+    intros Hpc Hbb Hn He Hnan. rewrite elab_do_unfold in He. cbn zeta in He.
+    destruct (elab_body G ([] :: [] :: env) b) as [b'| |] eqn:Eb; cbn [ebind] in He; try discriminate.
+    destruct (elab G COn ([] :: env) c) as [c'| |] eqn:Ec; cbn [ebind] in He; try discriminate. inversion He; subst ts env'; clear He.
+    exists b', c'. split; [reflexivity|]. split; [reflexivity|]. split; [reflexivity|]. split; [reflexivity|].
+    assert (Hbb' : bsrc (S n) (SBlock b) = true) by exact Hbb.
+    assert (Eblk : elab_stmt G ([] :: env) (SBlock b) = EOk (TBlock b', [] :: env)) by (rewrite elab_block_unfold, Eb; reflexivity).
+    apply (proj1 (bsrc_static G (S n) (SBlock b) (TBlock b') ([] :: env) ([] :: env) Hbb' Eblk (env_num_push env Hn) (Hnan b' eq_refl))).
+  Qed.
+
+  Lemma stop_elab_not_do n s ts env env' : stop n s = true -> elab_stmt G env s = EOk (ts, env') -> forall b0 c0, ts <> TDo b0 c0.
+  Proof.
+    intros Est He.
+    intros b0 c0 E. subst ts. unfold stop in Est. destruct (ssimple s) eqn:Ess.
+        - destruct s as [t x i| e0 | | | | | | | |]; try discriminate.
+          + cbn [elab_stmt] in He. destruct i; cbn [elab_opt ebind] in He; [destruct (elab G COn (tdeclare env x t) e); cbn [ebind] in He; try discriminate; destruct (ty_eqb _ _); discriminate|discriminate].
+          + cbn [elab_stmt ebind] in He. destruct (elab G COn env e0); cbn [ebind] in He; discriminate.
+        - cbn in Est. pose proof (bsrc_nonsimple G n s _ env env' Ess Est He) as X. destruct n as [|n']; [discriminate|].
+          destruct s as [| e0 | l | | c1 t f | | | | |]; cbn [bsrc] in Est; try discriminate.
+          + destruct e0 as [| | | |o l0 r0| | | | | |]; try discriminate. destruct l0; try discriminate. rewrite Ess in Est. discriminate.
+          + rewrite elab_block_unfold in He. destruct (elab_body G ([] :: env) l); cbn [ebind] in He; discriminate.
+          + rewrite elab_if_unfold in He. cbv zeta in He. destruct (elab G COn ([] :: env) c1); cbn [ebind] in He; try discriminate.
+            destruct (elab_stmt G ([] :: env) t) as [[t' e2]| |]; cbn [ebind] in He; try discriminate.
+            destruct f as [f0|]; [destruct (elab_stmt G e2 f0) as [q| |]; cbn [ebind] in He; try discriminate|cbn [ebind] in He]; discriminate.
+  Qed.
+
   Lemma wtop_stmt_static n s ts env env' : env_num env -> wstop n s = true -> elab_stmt G env s = EOk (ts, env') -> wtnonan n ts ->
     wtop_ok n ts = true /\ env_num env'.
   Proof.
     intros Hn Hs He Hnan. unfold wstop in Hs. destruct (stop n s) eqn:Est.
-    - pose proof (stop_elab_not_while n s ts env env' Est He) as Hnw.
-      assert (E : wtopexprs n ts = topexprs n ts) by (destruct ts as [| | | | | |c0 [b0|]| | |]; try reflexivity; exfalso; apply (Hnw c0 b0); reflexivity).
+    - pose proof (stop_elab_not_while n s ts env env' Est He) as Hnw. pose proof (stop_elab_not_do n s ts env env' Est He) as Hnd.
+      assert (E : wtopexprs n ts = topexprs n ts)
+        by (destruct ts as [| | | | | |c0 [b0|]|b0 c0| |]; try reflexivity; exfalso; [apply (Hnw c0 b0)|apply (Hnd b0 c0)]; reflexivity).
       destruct (top_stmt_static G n s ts env env' Hn Est He) as [Hok Hn']; [unfold wtnonan in Hnan; rewrite E in Hnan; exact Hnan|].
       split; [unfold wtop_ok; rewrite Hok; reflexivity|exact Hn'].
-    - cbn in Hs. destruct s as [| | | | | |c [b|]| | |]; try discriminate. cbn [is_swhile] in Hs. apply andb_prop in Hs as [Hpc Hbb].
-      destruct (while_elab_inv n env c b ts env' Hpc Hbb Hn He) as (c' & b' & -> & -> & Eb & Ec & Hbs).
-      { intros b' Eb x Hx f Hf. rewrite elab_while_unfold in He. cbn zeta in He. rewrite Eb in He. cbn [ebind fst snd] in He.
-        destruct (elab G COn ([] :: env) c) as [c'| |]; cbn [ebind] in He; try discriminate. inversion He; subst ts. apply (Hnan x); [right; exact Hx|exact Hf]. }
-      split; [|exact Hn]. unfold wtop_ok. cbn [is_while]. rewrite Hbs, andb_true_r.
-      rewrite (elab_tpure_static G ([] :: env) (env_num_push env Hn) c c' Hpc Ec); [apply orb_true_r|]. intros f Hf. apply (Hnan c'); [left; reflexivity|exact Hf].
+    - cbn [orb] in Hs. destruct s as [| | | | | |c [b|]|b c| |]; try discriminate.
+      + cbn [is_swhile is_sdo orb] in Hs. rewrite orb_false_r in Hs. apply andb_prop in Hs as [Hpc Hbb].
+        destruct (while_elab_inv n env c b ts env' Hpc Hbb Hn He) as (c' & b' & -> & -> & Eb & Ec & Hbs).
+        { intros b' Eb x Hx f Hf. rewrite elab_while_unfold in He. cbn zeta in He. rewrite Eb in He. cbn [ebind fst snd] in He.
+          destruct (elab G COn ([] :: env) c) as [c'| |]; cbn [ebind] in He; try discriminate. inversion He; subst ts. apply (Hnan x); [right; exact Hx|exact Hf]. }
+        split; [|exact Hn]. unfold wtop_ok. cbn [is_while is_do]. rewrite Hbs, andb_true_r, orb_false_r.
+        rewrite (elab_tpure_static G ([] :: env) (env_num_push env Hn) c c' Hpc Ec); [apply orb_true_r|]. intros f Hf. apply (Hnan c'); [left; reflexivity|exact Hf].
+      + cbn [is_swhile is_sdo orb] in Hs. apply andb_prop in Hs as [Hpc Hbb].
+        destruct (do_elab_inv n env b c ts env' Hpc Hbb Hn He) as (b' & c' & -> & -> & Eb & Ec & Hbs).
+        { intros b' Eb x Hx f Hf. rewrite elab_do_unfold in He. cbn zeta in He. rewrite Eb in He. cbn [ebind] in He.
+          destruct (elab G COn ([] :: env) c) as [c'| |]; cbn [ebind] in He; try discriminate. inversion He; subst ts. apply (Hnan x); [right; exact Hx|exact Hf]. }
+        split; [|exact Hn]. unfold wtop_ok. cbn [is_while is_do]. rewrite Hbs, andb_true_r.
+        rewrite (elab_tpure_static G ([] :: env) (env_num_push env Hn) c c' Hpc Ec); [apply orb_true_r|]. intros f Hf. apply (Hnan c'); [left; reflexivity|exact Hf].
   Qed.
 
   Lemma wtop_body_static n : forall l env e tl te, env_num env -> forallb (wstop n) l = true -> spure e = true ->
@@ -195,9 +268,11 @@ Section WSrc.
 
   Lemma wtopexec_mono n ts : forall k locals V A vs r, wtopexec structs gl args n k cs locals ts V A vs = Some r -> forall k', k <= k' -> wtopexec structs gl args n k' cs locals ts V A vs = Some r.
   Proof.
-    intros k locals V A vs r H k' Hle. destruct ts as [| | | | | |c [b|]| | |]; try exact H. cbn [wtopexec] in *. unfold wspec in *.
-    destruct (wloop structs gl args n k cs locals c b V A vs) as [[[V1 A1] vs1]|] eqn:E; [|discriminate].
-    rewrite (wloop_mono structs gl args n cs locals c b k V A vs _ E k' Hle). exact H.
+    intros k locals V A vs r H k' Hle. destruct ts as [| | | | | |c [b|]|b c| |]; try exact H; cbn [wtopexec] in *.
+    - unfold wspec in *. destruct (wloop structs gl args n k cs locals c b V A vs) as [[[V1 A1] vs1]|] eqn:E; [|discriminate].
+      rewrite (wloop_mono structs gl args n cs locals c b k V A vs _ E k' Hle). exact H.
+    - unfold dspec in *. destruct (dloop structs gl args n k cs locals b c V A vs) as [[[V1 A1] vs1]|] eqn:E; [|discriminate].
+      rewrite (dloop_mono structs gl args n cs locals b c k V A vs _ E k' Hle). exact H.
   Qed.
   Lemma wtopexec_list_mono n : forall l k locals V A vs r, wtopexec_list structs gl args n k cs locals l V A vs = Some r -> forall k', k <= k' -> wtopexec_list structs gl args n k' cs locals l V A vs = Some r.
   Proof.
@@ -213,13 +288,26 @@ Section WSrc.
     exists locals' V' A' vs', wtopexec structs gl args n fuel cs locals ts V A vs = Some (locals', V', A', vs') /\ Agree gl args env' st1 locals' V' A' vs'.
   Proof.
     intros Hs He Hg Hfr Hex Hag. unfold wstop in Hs. destruct (stop n s) eqn:Est.
-    - pose proof (stop_elab_not_while G n s ts env env' Est He) as Hnw.
-      assert (E : wtopexprs n ts = topexprs n ts) by (destruct ts as [| | | | | |c0 [b0|]| | |]; try reflexivity; exfalso; apply (Hnw c0 b0); reflexivity).
+    - pose proof (stop_elab_not_while G n s ts env env' Est He) as Hnw. pose proof (stop_elab_not_do G n s ts env env' Est He) as Hnd.
+      assert (E : wtopexprs n ts = topexprs n ts)
+        by (destruct ts as [| | | | | |c0 [b0|]|b0 c0| |]; try reflexivity; exfalso; [apply (Hnw c0 b0)|apply (Hnd b0 c0)]; reflexivity).
       assert (Ex : wtopexec structs gl args n fuel cs locals ts V A vs = topexec structs gl args n cs locals ts V A vs)
-        by (destruct ts as [| | | | | |c0 [b0|]| | |]; try reflexivity; exfalso; apply (Hnw c0 b0); reflexivity).
+        by (destruct ts as [| | | | | |c0 [b0|]|b0 c0| |]; try reflexivity; exfalso; [apply (Hnw c0 b0)|apply (Hnd b0 c0)]; reflexivity).
       rewrite Ex. apply (top_stmt_preserved M G structs gl args cs n s ts env env' fuel st fl st1 locals V A vs Est He); try assumption.
       unfold tgood. unfold wtgood in Hg. rewrite E in Hg. exact Hg.
-    - cbn in Hs. destruct s as [| | | | | |c [b|]| | |]; try discriminate. cbn [is_swhile] in Hs. apply andb_prop in Hs as [Hpc Hbb].
+    - cbn [orb] in Hs. destruct s as [| | | | | |c [b|]|b c| |]; try discriminate.
+      2:{ cbn [is_swhile is_sdo orb] in Hs. apply andb_prop in Hs as [Hpc Hbb].
+          destruct (do_elab_inv G n env b c ts env' Hpc Hbb (Agree_env_num gl args _ _ _ _ _ _ Hag) He) as (b' & c' & -> & -> & Eb & Ec & Hbs).
+          { intros b' Eb x Hx f Hf. rewrite elab_do_unfold in He. cbn zeta in He. rewrite Eb in He. cbn [ebind] in He.
+            destruct (elab G COn ([] :: env) c) as [c'| |]; cbn [ebind] in He; try discriminate. inversion He; subst ts.
+            destruct (Hg x (or_intror Hx)) as [_ [_ Hfl]]. apply (Hfl f Hf). }
+          destruct (Hg c' (or_introl eq_refl)) as [Hkc Hlc].
+          assert (Hgb : bgood cs (S n) (TBlock b')) by (intros x Hx; apply Hg; right; exact Hx).
+          destruct (src_do M G structs gl args cs n b c b' c' env Hpc Hbb Eb Ec Hkc Hlc Hgb fuel st fl st1 locals V A vs Hex Hag) as (Hfl & Hsh & V' & A' & vs' & Hw & Hag').
+          split; [exact Hfl|]. split; [reflexivity|].
+          split; [intros y Hy; right; unfold locals_names in *; rewrite !flat_map_concat_map in *; unfold shape in Hsh; rewrite <- Hsh; exact Hy|].
+          exists locals, V', A', vs'. split; [cbn [wtopexec]; unfold dspec; rewrite Hw; reflexivity|exact Hag']. }
+      cbn [is_swhile is_sdo orb] in Hs. rewrite orb_false_r in Hs. apply andb_prop in Hs as [Hpc Hbb].
       destruct (while_elab_inv G n env c b ts env' Hpc Hbb (Agree_env_num gl args _ _ _ _ _ _ Hag) He) as (c' & b' & -> & -> & Eb & Ec & Hbs).
       { intros b' Eb x Hx f Hf. rewrite elab_while_unfold in He. cbn zeta in He. rewrite Eb in He. cbn [ebind fst snd] in He.
         destruct (elab G COn ([] :: env) c) as [c'| |]; cbn [ebind] in He; try discriminate. inversion He; subst ts.
